@@ -8,19 +8,19 @@ EXPLANATION = ("All paths of the TCP connection constructor are enumerated (path
                "Ok paths without TLS are those for `ldap` without StartTLS; W2 on StartTLS paths exactly one LDAP operation is issued "
                "before the handshake - extended(StartTLS) - the driver turn's result and `success()?` of the response are both required "
                "(Ok) before into_parts / the handshake, `ldaps` paths issue no LDAP operation before the handshake, and the handle is not "
-               "cloned; W3 the TLS transport is framed with a fresh Framed built from parts.io and parts.codec only - Framed::from_parts, "
-               "which would keep cleartext bytes read before the handshake, is never called; W4 the request to skip certificate verification is the public call set_no_tls_verify(true): the private field it writes and "
+               "cloned; W3 the transport the connection ends up with is read as what it is built from, whichever constructor spells it (Framed::new, Decoder::framed, FramedParts::new + Framed::from_parts, each modelled after tokio_util): it runs over the stream the handshake returned, the handshake ran on the socket taken out of the cleartext transport, the codec is the cleartext transport's, and its read and write buffers start empty - a buffer of the cleartext transport carried over (assigned into the new parts, or the old parts reused) would have cleartext bytes decoded inside the protected session; of the old transport's parts only io and codec flow anywhere; a transport is rebuilt from parts nowhere else; W4 the request to skip certificate verification is the public call set_no_tls_verify(true): the private field it writes and "
                "the value that stands for the request are read from the setter (not from a name); every body that builds a settings value "
                "(new, the Default impl - derived or hand-written -, Clone) leaves that field at 'not requested'; the default connector / "
                "configuration disables verification exactly on the paths that found the request in the field, is built from the "
                "connection's own settings, a caller-supplied connector is used as given, and the handshake is given the URL's host name; "
                "W5/W7/W8 the settings' Clone keeps, and the starttls() getter returns, what the setters recorded (fields anchored by role). Not decided: what native-tls / rustls verify (trusted); server behaviours as runtime events.")
-TRUSTED = ['native-tls / rustls certificate and host name verification', 'tokio_util Framed::into_parts / Decoder::framed']
+TRUSTED = ['native-tls / rustls certificate and host name verification', 'tokio_util Framed::into_parts / Framed::new / Framed::from_parts / FramedParts::new / Decoder::framed behave as modelled in transport_of (read from tokio-util 0.7 source)']
 UNDECIDED = ['TLS library behaviour', 'server behaviour at run time']
 ASSUMPTIONS = []
 CONFIGS = ['default', 'rustls']
 QUICK_CONFIGS = ['default', 'rustls']      # the two TLS back ends are sibling implementations of the same clauses, selected by cfg: a change can be visible in only one of them
-SHARED = [('C04', ('L7.',), 'W6.transport')]      # what is written to a ConnType::Tls goes to the TLS stream, not to another variant's socket, method by method
+SHARED = [('C04', ('L7.',), 'W6.transport'), ('C18', ('U6.',), 'W9.request-survives-later-builder-calls'),
+          ('C03', ('T1.result-code',), 'W2.result-code-is-what-the-server-sent')]      # what is written to a ConnType::Tls goes to the TLS stream, not to another variant's socket, method by method; W9 "under all combinations of scheme, StartTLS and verification settings": set_starttls(true) / the verification setting / the caller's connector are still what connection setup sees after any later builder call - a builder method that rebuilds the settings from defaults turns a requested StartTLS off without a word; W2.result-code "establishment fails if the StartTLS response is not success ... answering garbage": the result code that `success()` tests (W2.success-means-rc-0: Ok exactly for 0) is the ENUMERATED the server put first into the response, decoded - on no path a default that stands in for an element that is missing, wrong-tagged or constructed, because the default of the code's type is 0 = success
 
 NT = 'ldap3::conn::LdapConnAsync::new_tcp'
 
@@ -41,6 +41,83 @@ def starttls_of(o):
 def calls(o, suffix):
     return [(i, e) for i, e in enumerate(o.st.ev) if e[0] == 'call' and e[1].endswith(suffix)]
 
+
+FRESH = ('fresh-buffer',)
+FRAMED_FRESH = {'tokio_util::codec::framed::Framed::<T, U>::new': (0, 1), 'tokio_util::codec::framed::Framed::<T, U>::with_capacity': (0, 1), 'tokio_util::codec::decoder::Decoder::framed': (1, 0)}
+FROM_PARTS = 'tokio_util::codec::framed::Framed::<T, U>::from_parts'
+PARTS_NEW = 'tokio_util::codec::framed::FramedParts::<T, U>::new'
+EMPTY_BUFFER = ('bytes::bytes_mut::BytesMut::new', 'bytes::bytes_mut::BytesMut::with_capacity', '<bytes::bytes_mut::BytesMut as core::default::Default>::default')
+
+def transport_of(t, o):
+    """What a `Framed` value is built from, read off its constructor term and the stores that precede the construction on path o:
+    {'io', 'codec', 'read_buf', 'write_buf'} with FRESH for a buffer that starts empty; None when t is not the result of a
+    constructor modelled here (the caller fails closed).  The models, each after tokio_util's source:
+      Framed::new(io, codec), Framed::with_capacity(io, codec, n), Decoder::framed(codec, io) [the provided method is
+        `Framed::new(io, self)`; an impl that overrides it has another def-path and is not matched]: state = Default, both buffers empty;
+      Framed::from_parts(p) = Framed { inner: p.io, codec: p.codec, read: p.read_buf.into(), write: p.write_buf.into() }: the four
+        fields of p as they are at the call;
+      FramedParts::new(io, codec) = { io, codec, read_buf: BytesMut::new(), write_buf: BytesMut::new() };
+      any other parts value (Framed::into_parts(f)): its fields are opaque terms `p.x` - in particular never FRESH.
+    A field of a parts value is the last value stored to it before the construction, else what its own constructor gave it.  A parts
+    value from FramedParts::new that was also handed to some other call (e.g. by `&mut`) is not followed: its buffers are unknown."""
+    if not (isinstance(t, tuple) and t and t[0] == 'call' and len(t) == 4):
+        return None
+    if t[1] in FRAMED_FRESH and len(t[2]) > max(FRAMED_FRESH[t[1]]):
+        i, c = FRAMED_FRESH[t[1]]
+        return {'io': t[2][i], 'codec': t[2][c], 'read_buf': FRESH, 'write_buf': FRESH}
+    if t[1] != FROM_PARTS or len(t[2]) != 1:
+        return None
+    P = t[2][0]
+    at = next((i for i, e in enumerate(o.st.ev) if e[0] == 'call' and e[1] == FROM_PARTS and e[3].get('id') == t[3]), None)
+    if at is None:
+        return None
+    stored, touched = {}, {}
+    def without_fields(x):
+        # x with every `P.f` cut out: what is left of P in it is the parts value as a whole
+        if isinstance(x, tuple):
+            if len(x) == 3 and x[0] == 'field' and x[1] == P:
+                return ('cut',)
+            return tuple(without_fields(y) for y in x)
+        return x
+    for e in o.st.ev[:at]:
+        if e[0] == 'store' and e[1][0] == 'field' and e[1][1] == P:
+            stored[e[1][2]] = e[2]
+        elif e[0] == 'store' and absx.is_subplace(e[1], P):
+            k = e[1]
+            while k[1] != P:
+                k = k[1]
+            touched.setdefault(k[2], 'a store inside it')   # a store below one of its fields: that field is no longer what was put there
+        elif e[0] == 'call':
+            # the parts value - or one of its fields - handed to a function (possibly by `&mut`): what the callee leaves there is not modelled
+            for x in e[2]:
+                for y in absx.leaves(x, lambda y: len(y) == 3 and y[0] == 'field' and y[1] == P):
+                    touched.setdefault(y[2], e[1].rsplit('::', 1)[-1])
+                if absx.leaves(without_fields(x), lambda y: y == P):
+                    touched.setdefault('*', e[1].rsplit('::', 1)[-1])
+        elif e[0] == 'store-unknown':
+            touched.setdefault('*', 'a store the interpreter could not place')
+    made_new = P[0] == 'call' and P[1] == PARTS_NEW and len(P[2]) == 2
+    out = {}
+    for name, k in (('io', 0), ('codec', 1), ('read_buf', None), ('write_buf', None)):
+        why = touched.get(name) or touched.get('*')
+        if name in stored:
+            v = stored[name]
+            if k is None and why is None and v[0] == 'call' and v[1] in EMPTY_BUFFER and all(x[0] == 'lit' for x in v[2]):
+                v = FRESH       # BytesMut::new() / with_capacity(n) / default(): a new buffer of length 0
+            out[name] = v
+        elif made_new and k is not None:
+            out[name] = P[2][k]
+        elif made_new:
+            out[name] = FRESH if why is None else ('unk', 'a buffer handed to %s before from_parts' % why)
+        else:
+            out[name] = ('field', P, name)
+    return out
+
+def describe_buffer(b):
+    if b[0] == 'field' and b[1][0] == 'call' and b[1][1].endswith('::into_parts'):
+        return 'the %s of the cleartext transport (into_parts(..).%s)' % (b[2], b[2])
+    return absx.fmt(b)[:80]
+
 def run(ctx):
     f = ctx.facts
     if NT not in f.hir:
@@ -60,16 +137,15 @@ def run(ctx):
         want_tls = sch == 'ldaps' or (sch == 'ldap' and stls is True)
         conn, ldap = o.val[2][0][1] if o.val[2][0][0] == 'tuple' else (('unk',), ('unk',))
         tls = calls(o, 'LdapConnAsync::create_tls_stream')
-        fr = calls(o, 'Decoder::framed')
         has_tls = o.st.heap.get(('field', ldap, 'has_tls')) == ('lit', True)
         got_tls = False
-        if len(tls) == 1 and len(fr) == 1:
-            tterm = ('await', ('call', tls[0][1][1], tls[0][1][2], tls[0][1][3].get('id')))
+        tterm = ('await', ('call', tls[0][1][1], tls[0][1][2], tls[0][1][3].get('id'))) if len(tls) == 1 else None
+        # the transport the returned connection ends up with, read as what it is built from (however the constructor is spelled)
+        new_stream = o.st.heap.get(('field', conn, 'stream'))
+        tr = transport_of(new_stream, o) if new_stream is not None else None
+        if tterm is not None:
             ok_hs = any(a == ('is', tterm, 'Ok') and t for a, t in o.st.pc)
-            io = fr[0][1][2][1]
-            new_stream = o.st.heap.get(('field', conn, 'stream'))
-            got_tls = ok_hs and io == ('ctor', 'ConnType::Tls', (('variant', tterm, 'Ok', 0),)) and new_stream is not None and new_stream[0] == 'call' \
-                and new_stream[3] == fr[0][1][3].get('id') and has_tls
+            got_tls = ok_hs and tr is not None and tr['io'] == ('ctor', 'ConnType::Tls', (('variant', tterm, 'Ok', 0),)) and has_tls
         key = '%s|starttls=%s' % (sch, stls)
         seen.add((sch, stls if sch == 'ldap' else None))
         if want_tls:
@@ -109,10 +185,34 @@ def run(ctx):
                 any(a2[0] == 'call' and a2[1].endswith('::is_empty') and strip_site(a2[2][0]) == ('variant', hs, 'Some', 0) and not t for a2, t in o.st.pc)
             host_ok = strip_site(a[1]) == (('variant', hs, 'Some', 0) if has_host else ('lit', 'localhost'))
             ctx.add('W4.handshake-host-is-url-host', key, loc(tls[0][1][3]), host_ok, 'the host name given to the TLS handshake is %s, not the URL\'s' % absx.fmt(a[1])[:60])
+            # ---- W3: what the protected transport is built from
             ip = calls(o, 'Framed::<T, U>::into_parts')
-            okio = len(ip) == 1 and fr and a[2][0] == 'variant' and a[2][2] == 'ConnType::Tcp' and a[2][1] == ('field', ('call', ip[0][1][1], ip[0][1][2], ip[0][1][3].get('id')), 'io') \
-                and fr[0][1][2][0] == ('field', a[2][1][1], 'codec')
-            ctx.add('W3.fresh-framed-from-io-and-codec', key, loc(B.root), okio, 'the TLS transport is not framed afresh from parts.io and parts.codec of the cleartext transport')
+            old = ('call', ip[0][1][1], ip[0][1][2], ip[0][1][3].get('id')) if len(ip) == 1 else None
+            wrong = []
+            if old is None or a[2] != ('variant', ('field', old, 'io'), 'ConnType::Tcp', 0):
+                wrong.append('the handshake is not run on the socket taken out of the cleartext transport (into_parts(..).io)')
+            if tr is None:
+                wrong.append('the connection\'s transport after the handshake is not a Framed built by Framed::new / Decoder::framed / Framed::from_parts (%s)' % absx.fmt(new_stream or ('unk',))[:60])
+            else:
+                if tr['io'] != ('ctor', 'ConnType::Tls', (('variant', tterm, 'Ok', 0),)):
+                    wrong.append('it does not run over the stream the handshake returned')
+                if old is None or tr['codec'] != ('field', old, 'codec'):
+                    wrong.append('its codec is not the cleartext transport\'s (into_parts(..).codec)')
+            ctx.add('W3.fresh-framed-from-io-and-codec', key, loc(B.root), not wrong, 'the TLS transport is not framed afresh from parts.io and parts.codec of the cleartext transport: ' + '; '.join(wrong))
+            if tr is not None:
+                for which, what in (('read_buf', 'read'), ('write_buf', 'write')):
+                    ctx.add('W3.no-cleartext-buffer-carried-over', '%s|%s' % (key, what), loc(B.root), tr[which] == FRESH,
+                            'the %s buffer of the protected transport does not start empty: it is %s - %s' % (what, describe_buffer(tr[which]),
+                                'bytes the peer (or an attacker on the path) sent in cleartext after the StartTLS response are decoded as LDAP responses inside the protected session and delivered to whichever operation carries their message ID' if what == 'read'
+                                else 'bytes queued in cleartext are written into the protected session'))
+            # nothing else of the cleartext transport survives the upgrade: of its parts only io and codec flow anywhere on this path
+            if old is not None:
+                used = set()
+                # (what a call is given, what a place holds when the path ends, what is returned; a value stored and overwritten again went nowhere)
+                for t in [x for e in o.st.ev if e[0] == 'call' for x in e[2]] + list(o.st.heap.values()) + [o.val]:
+                    for x in absx.leaves(t, lambda x: x[0] == 'field' and x[1] == old):
+                        used.add(x[2])
+                ctx.add('W3.only-io-and-codec', key, loc(B.root), used <= {'io', 'codec'}, 'parts of the cleartext transport that flow into the protected session: %s' % sorted(used - {'io', 'codec'}))
     for need in [('ldap', False), ('ldap', True), ('ldaps', None)]:
         ctx.add('W1.coverage', str(need), loc(B.root), need in seen, 'no Ok path for (scheme, starttls) = %s' % (need,))
     # scheme tag: "starttls" exactly when scheme is ldap and settings.starttls()
@@ -121,14 +221,11 @@ def run(ctx):
     from props import C03
     C03.check_result_helpers(ctx, f, 'W2.success-means-rc-0', only=('ldap3::result::ExopResult::success',))
     ctx.add('W2.handle-not-cloned', NT, loc(B.root), not clones, 'the handle is cloned during establishment')
-    # ---- W3 global: from_parts never used; parts fields
-    fp = hirq.all_calls(f, lambda c: 'Framed' in c and c.endswith('::from_parts'))
-    ctx.add('W3.no-from-parts', 'workspace', fp[0][1]['sp'][0] if fp else '', not fp, 'Framed::from_parts carries the pre-handshake read buffer into the protected session')
-    parts_fields = set()
-    for n, c in walk(B.root):
-        if n['k'] == 'Field' and 'FramedParts<' in hirq.strip_refs(n['e'].get('ty', '')):
-            parts_fields.add(n['name'])
-    ctx.add('W3.only-io-and-codec', 'parts', loc(B.root), parts_fields <= {'io', 'codec'}, 'fields of the old transport used: %s' % sorted(parts_fields))
+    # ---- W3 global: a transport is rebuilt from parts only where the rule above judges the result (the TCP constructor; a helper
+    # introduced by a later change is expanded into it at fact load): anywhere else the buffers it carries are not decided
+    fp = [(p, n) for p, n, _c in hirq.all_calls(f, lambda c: ('Framed' in c and c.endswith('::from_parts')) or c.endswith('FramedParts::<T, U>::new')) if p.split('::{closure')[0] != NT]
+    ctx.add('W3.transport-rebuilt-only-in-the-upgrade', 'workspace', fp[0][1]['sp'][0] if fp else '', not fp,
+            'a Framed transport is rebuilt from parts outside the TLS upgrade of the TCP constructor (%s): whether it carries a read buffer filled in cleartext into a protected session is not decided' % sorted({p for p, n in fp}))
 
     # ---- W4 verification only disabled on request
     check_verification(ctx, f, R)
@@ -162,6 +259,8 @@ def check_verification(ctx, f, R):
         rec = f.hir[p]
         if '{' in p or not any(nd['k'] == 'Struct' and (nd.get('ctor_of') or nd.get('def') or '') == R.ST for nd, _c in walk(rec['body'])):
             continue
+        if p == R.setter.get('verify-off'):
+            continue        # the setter itself, written as a struct-update (`Self { f: v, ..self }`): what it records is (a)'s question
         B = hirq.Body(f, f.body(p))
         ctx.analysed['bodies'].add(p)
         sparams = [('param', x) for x in sem.params_of_type(f, B, IS_SETTINGS)]
